@@ -101,4 +101,23 @@ def Ctx.addAlias (c : Ctx) (aliasName : List Nat) (opt : Nat) : Option Ctx :=
   if opt < c.nOpts ∧ !aliasName.isEmpty then (insert c.index aliasName opt).map (fun ix => { c with index := ix })
   else some c
 
+/-! ### adding a whole context (`OptionContext::add(const OptionContext&)`)
+  The groups of the other context are added one after the other (`add(group)` for each, in the order in which its groups were created), so the
+  options arrive group by group, not in the order in which they were added to the other context; the extra names given to the other context with
+  `addAlias` are not taken over.  `opts`: the other context's options as (name, alias, group) in their order of addition. -/
+def groupOrder (opts : List (List Nat × Nat × Nat)) : List Nat := (opts.map (·.2.2)).eraseDups
+
+def mergeOrder (opts : List (List Nat × Nat × Nat)) : List (List Nat × Nat × Nat) :=
+  (groupOrder opts).flatMap (fun g => opts.filter (fun o => o.2.2 == g))
+
+/-- the options are inserted one by one; at the first refusal the exception leaves the context with what was inserted so far (and what the refused
+    `insertOption` left behind).  Result: the context, and whether the merge went through. -/
+def Ctx.addAll (c : Ctx) : List (List Nat × Nat × Nat) → Ctx × Bool
+  | [] => (c, true)
+  | o :: r => match c.addOption o.1 o.2.1 with
+    | some c' => c'.addAll r
+    | none => (c.afterRefused o.2.1, false)
+
+def Ctx.addCtx (c : Ctx) (otherOpts : List (List Nat × Nat × Nat)) : Ctx × Bool := c.addAll (mergeOrder otherOpts)
+
 end PotasscoVerif.OptIndex
